@@ -120,6 +120,7 @@ def scenario(conf, restartfreq=3, nsteps=8, base=True, log=None, temperature=300
         S.append("step")
         if k == 4:
             S.append("save text mid.state")
+            S.append("save binary mid.bin.state")
     S += ["postrun", "objs"]
     return "\n".join(S) + "\n"
 
